@@ -245,4 +245,11 @@ def suite_defaults(ctx):
     return s
 
 
-SUITES = [suite_timing, suite_defaults]
+def suite_reentrant(ctx):
+    """the pending-response callback uses the client it belongs to (the documentation suggests sending TesterPresent from it): the request in flight goes on as if the
+    callback had done nothing - harness/reentrant.py, metamorphic against a callback that only counts"""
+    from .. import reentrant
+    return reentrant.suite_reentrant(ctx)
+
+
+SUITES = [suite_timing, suite_defaults, suite_reentrant]
